@@ -118,6 +118,31 @@ func c13KindCheck(t failer, c *c13KindCase, fresh map[string]string) string {
 			violation(t, "C13", "TestC13_KindSwitch", c, "%q: call %d of one evaluator (history: %s, %s, %s, %s; wrapped in a list: %v) on %s returned %s, a fresh evaluator returns %s", c.Text, i+1, c.A, c.B, c.A, c.B, c.Wrap, step.s.name, got, step.w)
 		}
 	}
+	// the same within ONE Filter.Execute: a slice whose elements show the selector in both kinds in turn
+	if !c.Wrap {
+		if f, ferr := bexpr.CreateFilter(c.Text); ferr == nil && f != nil {
+			wantErr, wantLen := false, 0
+			for _, w := range []string{wa, wb, wa, wb} {
+				if w == "(true, nil)" {
+					wantLen++
+				} else if w != "(false, nil)" {
+					wantErr = true
+					break
+				}
+			}
+			in := []interface{}{c13KindDatum(a.v, false), c13KindDatum(b.v, false), c13KindDatum(a.v, false), c13KindDatum(b.v, false)}
+			out, eerr, pan := safeExecute(f, in)
+			if pan != nil {
+				violation(t, "C13", "TestC13_KindSwitch", c, "%q: Filter.Execute panicked on elements %s, %s, %s, %s: %v", c.Text, c.A, c.B, c.A, c.B, pan)
+			} else if (eerr != nil) != wantErr {
+				violation(t, "C13", "TestC13_KindSwitch", c, "%q: Filter.Execute on elements %s, %s, %s, %s returned error %v; fresh evaluators on the single elements give %s and %s", c.Text, c.A, c.B, c.A, c.B, eerr, wa, wb)
+			} else if eerr == nil {
+				if res, ok := out.([]interface{}); !ok || len(res) != wantLen {
+					violation(t, "C13", "TestC13_KindSwitch", c, "%q: Filter.Execute on elements %s, %s, %s, %s kept %v; fresh evaluators on the single elements give %s and %s (%d to keep)", c.Text, c.A, c.B, c.A, c.B, out, wa, wb, wantLen)
+				}
+			}
+		}
+	}
 	return wa + " " + wb
 }
 
